@@ -506,6 +506,9 @@ OLC_SCEN = {  # scenario -> (max preemption index explored = atomic accesses of 
     'l_get_ins': (45, 'reader of a root leaf while it is split'),
     'l_get_rem': (45, 'reader of a root leaf while it is removed (root replacement)'),
     'l_ins_ins_split': (80, 'two leaf splits of the root leaf'),
+    'l_rem_ins': (60, 'removal of the root leaf while an insert splits it'),
+    'l_rem_rem': (60, 'two removals of the only key: exactly one succeeds'),
+    'l_ins_rem': (80, 'split of the root leaf while the leaf is removed'),
     'p_get_split': (45, 'reader below a key-prefix split'),
     'p_rem_split': (80, 'remove below a key-prefix split'),
     'p_get_rem_sib': (45, 'reader while the sibling is removed and the two-child root collapses onto its leaf'),
@@ -513,7 +516,7 @@ OLC_SCEN = {  # scenario -> (max preemption index explored = atomic accesses of 
     'n_get2_ins400': (60, 'reader three levels deep while an inner node on its path is replaced by a larger one'),
     'n_rem3_ins400': (100, 'remove three levels deep while the parent of its node is replaced'),
 }
-OLC_QUICK = {'C03': {'c_get_k1_rem_k0', 'g_ins5_rem1', 'g_ins5_ins5', 'l_get_rem', 's_get2_rem5', 'p_rem_split'}, 'C04': {'c_get_k1_rem_k0', 'l_get_rem', 's_get2_rem5'}, 'C14': {'g_ins5_rem1', 'n_ins4_ins400'}, 'C10': {'g_ins5_rem1'}}
+OLC_QUICK = {'C03': {'c_get_k1_rem_k0', 'g_ins5_rem1', 'g_ins5_ins5', 'l_get_rem', 's_get2_rem5', 'p_rem_split'}, 'C04': {'c_get_k1_rem_k0', 'l_get_rem', 's_get2_rem5'}, 'C14': {'g_ins5_rem1', 'n_ins4_ins400', 'l_rem_ins'}, 'C10': {'g_ins5_rem1'}}
 OLC_KNOWN = {}    # (scenario, k) -> known finding id; filled from known_findings.txt ids below
 
 
@@ -569,6 +572,7 @@ def c04():
     extra = [Query('v_view_two_exits', u, 'v_view_two_exits', unwind=20, checks='pointer', replay='none', trace=False, flags=['--slice-formula'],
                    about='three QSBR registrations, call-level schedule: reader keeps a view; the remover exits with the request pending; a third thread that never quiesced exits; the view is re-read before the reader quiesces',
                    bounds={'threads': 3, 'preemptions': 0})]
+    extra += retire_queries()
     return Check('C04', 'exploration', olc_queries('C04') + extra, assumptions=OLC_ASSUME + ['CBMC pointer checks: any dereference of a deallocated or out-of-bounds object on any explored schedule fails; '
                  'the value view obtained by a preempted get() is re-read after the competing remove and before the reader quiesces; after both threads quiesced twice nothing retired may remain allocated (live block count)'],
                  explanation='Same schedules as C03 with the real QSBR code (two registrations): no access to reclaimed memory, views stay valid until the quiescent state.')
@@ -647,6 +651,22 @@ QSBR_ASSUME = ['own sequentialisation: 3-4 simulated threads (one qsbr_per_threa
                'pause or exit call; every free performed by QSBR is intercepted by an assertion injected at the entry of qsbr::deallocate(void*)',
                'statistics-free build (the Boost.Accumulators statistics are not encoded); exit is modelled by pause (what the destructor does)',
                'scenario list, not all programs: see QSBR_SCEN in engine/checks.py']
+
+
+RETIRE_HOOKS = dict(noinline=['@_ZN5unodb4qsbr10deallocateEPv', '@_ZN5unodb6detail12free_alignedEPv'],
+                    entry_hooks=[(r'^unodb::qsbr::deallocate\(void\*', 'verif_on_qsbr_free(v_0);'), (r'^unodb::detail::free_aligned\(void\*', 'verif_on_node_free(v_0);')])
+
+
+def retire_queries():
+    qs = []
+    for n, tier, t in ((17, 'quick', None), (49, 'quick', None)):
+        u = U('olc_retire.cpp', 'base', defines=['NKEYS=%d' % n], **RETIRE_HOOKS)
+        qs.append(Query('r_chain_%d' % n, u, 'r_chain', unwind=260, checks='pointer', replay='none', trace=False, flags=['--slice-formula'], tier=tier, weight=2, object_bits=12,
+                        about='olc_db with two QSBR registrations, no preemption: one node grown through %s by %d inserts and shrunk back by %d removes; frees observed at '
+                              'detail::free_aligned and qsbr::deallocate: none during an operation, each unlinked node exactly once after both threads quiesced; value byte symbolic' %
+                              ('I4 -> I16 -> I48' if n == 17 else 'I4 -> I16 -> I48 -> I256', n, n),
+                        bounds={'keys': n, 'threads_registered': 2, 'preemptions': 0}))
+    return qs
 
 
 def c05():
